@@ -195,6 +195,16 @@ fn check_fee(c: &FeeCase, rec: &mut Rec) -> Result<(), String> {
                     return Err("liquidation receiver fee exceeds the fee".into());
                 }
                 rec.class_if(!amount.is_zero(), "liquidation_fee_positive");
+                // split identity of the whole position fee: pool share + receiver share == total cost
+                // (order + borrowing + liquidation fee, funding excluded)
+                if c.liq_factor <= UNIT && c.liq_recv <= UNIT {
+                    if let (Ok(pool), Ok(recv_total), Ok(total)) = (pf.for_pool::<20>(), pf.for_receiver(), pf.total_cost_excluding_funding()) {
+                        if b(pool) + b(recv_total) != b(total) {
+                            return Err(format!("position fees of a liquidation: pool share {pool} + receiver share {recv_total} != total cost excluding funding {total}"));
+                        }
+                        rec.class_if(recv != 0, "liquidation_split_with_receiver_share");
+                    }
+                }
             }
             Err(_) => {
                 if c.liq_factor <= UNIT && c.liq_recv <= UNIT {
@@ -207,13 +217,14 @@ fn check_fee(c: &FeeCase, rec: &mut Rec) -> Result<(), String> {
 }
 
 pub fn run_c02(ctx: &mut Ctx) {
-    ctx.rule("cases = amount (u128 mixture) x positive/negative fee factor x receiver factor x optional discount, each from {0, tiny, <=100%, exactly 100%, 100%+1, >100%, MAX} x balance change x collateral price (min=1, spread) x liquidation factors; oracle = BigInt formulas fee = floor(a*f) - floor(floor(a*f)*d), receiver = floor(fee*rf), split identity net+pool+receiver == amount, order fee amount = floor(value/price.min), liquidation amount = ceil(value/price.min); valid factors must succeed, invalid ones must fail or still satisfy the identity; non-trivial = positive fee with positive receiver share and discount, or an invalid factor that is rejected");
+    ctx.rule("cases = amount (u128 mixture) x positive/negative fee factor x receiver factor x optional discount, each from {0, tiny, <=100%, exactly 100%, 100%+1, >100%, MAX} x balance change x collateral price (min=1, spread) x liquidation factors; oracle = BigInt formulas fee = floor(a*f) - floor(floor(a*f)*d), receiver = floor(fee*rf), split identity net+pool+receiver == amount, order fee amount = floor(value/price.min), liquidation amount = ceil(value/price.min), position fees of a liquidation: pool share + receiver share == total cost excluding funding; valid factors must succeed, invalid ones must fail or still satisfy the identity; non-trivial = positive fee with positive receiver share and discount, or an invalid factor that is rejected");
     ctx.assume("u128 / 20 decimals instantiation; liquidation fee reached through PositionExt::position_fees(.., is_liquidation = true)");
     let n = ctx.cases(300_000, 12_000_000);
     ctx.search("fees", n, fee_case, check_fee);
     ctx.floor("fees:valid_factors", 10_000);
     ctx.floor("fees:invalid_rejected", 1_000);
     ctx.floor("fees:liquidation_fee_positive", 1_000);
+    ctx.floor("fees:liquidation_split_with_receiver_share", 500);
 }
 
 // ---------------------------------------------------------------------------------------------
